@@ -62,6 +62,25 @@ HISTORY = {
     "no condition read the placeholders); caught after calls on signatures without ** and conditions reading _ARGS/_KWARGS",
     "C20_r5_builtin_constants_shown": "missed at first (only arguments were checked for being left out); caught after the grammar names "
     "NotImplemented, Ellipsis and __debug__ and no entry may be keyed by a name of the builtins module",
+    "C01_r6_contracts_deduplicated_across_precondition_groups": "missed at first (every generated contract was a decorator of its own); caught "
+    "after overrides apply a precondition decorator object of an ancestor again (one contract in two groups)",
+    "C06_r6_invariant_drops_its_a_repr": "missed at first (the oracle took the representer from what the library itself passed along); caught "
+    "after a quarter of the contracts got a tight a_repr and the check demands the configured one",
+    "C07_r6_placeholder_membership_test_in_displays": "missed at first (all values compared quietly); caught after list / tuple displays hold "
+    "values whose __eq__ raises or gives a result without a truth value",
+    "C10_r6_marks_keyed_by_code_object": "missed at first (every contracted function had a def of its own); caught after functions and "
+    "classes made by one factory call each other from their conditions",
+    "C11_r6_stale_set_written_back_after_pre_phase": "missed at first (the out-of-order scenario only suspended a call in a method body); "
+    "caught after it also suspends calls in an awaited precondition and in an awaited capture - which then fired on the unchanged tree too "
+    "(a residual defect of the same mechanism, repaired)",
+    "C14_r6_invariant_wrapper_drops_dict_of_member": "missed at first (abstract members only in hierarchies without invariants); caught "
+    "after the class twin with an abstract method and an abstract property under invariants",
+    "C15_r6_result_argument_guard_only_in_debug": "missed at first (no argument named result / OLD in the cross-mode scenarios); caught after "
+    "four such scenarios were added to the child",
+    "C19_r6_variadic_condition_parameters_not_mandatory": "missed at first (invariant conditions only had plain surplus parameters); caught "
+    "after conditions with *args, **kwargs and keyword-only parameters were added",
+    "C20_r6_set_truncated_before_ordering": "missed at first (sets never exceeded the limit of 50 items); caught after sets of 49..120 "
+    "strings were added to the arguments",
 }
 
 
